@@ -193,6 +193,15 @@ func renderJSON(items []citem, arrayForm bool) *ojson {
 	return o
 }
 
+// nestedAttrs: z plus p01..p14, so that label-less sibling blocks can be told apart by what they hold.
+func nestedAttrs() map[string]*schema.AttributeSchema {
+	m := map[string]*schema.AttributeSchema{"z": {Constraint: schema.AnyExpression{OfType: cty.String}, IsOptional: true}}
+	for i := 1; i <= 14; i++ {
+		m[fmt.Sprintf("p%02d", i)] = &schema.AttributeSchema{Constraint: schema.AnyExpression{OfType: cty.String}, IsOptional: true}
+	}
+	return m
+}
+
 func c19Schema() *schema.BodySchema {
 	anyOf := func(t cty.Type) *schema.AttributeSchema {
 		return &schema.AttributeSchema{Constraint: schema.AnyExpression{OfType: t}, IsOptional: true}
@@ -205,7 +214,7 @@ func c19Schema() *schema.BodySchema {
 			"lit": {Constraint: schema.LiteralType{Type: cty.String}, IsOptional: true},
 			"obj": {Constraint: schema.Object{Attributes: schema.ObjectAttributes{"foo": anyOf(cty.String), "bar": anyOf(cty.Bool)}}, IsOptional: true},
 			"lst": {Constraint: schema.List{Elem: schema.AnyExpression{OfType: cty.String}}, IsOptional: true},
-			"ra": {Constraint: schema.Reference{Address: &schema.ReferenceAddrSchema{ScopeId: "sx"}}, IsOptional: true},
+			"ra":  {Constraint: schema.Reference{Address: &schema.ReferenceAddrSchema{ScopeId: "sx"}}, IsOptional: true},
 			"mp": {Constraint: schema.Map{Elem: schema.AnyExpression{OfType: cty.String}}, IsOptional: true,
 				Address: &schema.AttributeAddrSchema{Steps: schema.Address{schema.StaticStep{Name: "mp"}, schema.AttrNameStep{}}, AsReference: true, AsExprType: true, ScopeId: "sm"}},
 			"ob": {Constraint: schema.Object{Attributes: schema.ObjectAttributes{"foo": anyOf(cty.String), "bar": anyOf(cty.Bool)}}, IsOptional: true,
@@ -226,7 +235,7 @@ func c19Schema() *schema.BodySchema {
 				Body: &schema.BodySchema{
 					Attributes: map[string]*schema.AttributeSchema{"x": anyOf(cty.String), "y": anyOf(cty.Number), "tags": anyOf(cty.Map(cty.String))},
 					Blocks: map[string]*schema.BlockSchema{
-						"nested": {Type: schema.BlockTypeList, Body: &schema.BodySchema{Attributes: map[string]*schema.AttributeSchema{"z": anyOf(cty.String)}}},
+						"nested": {Type: schema.BlockTypeList, Body: &schema.BodySchema{Attributes: nestedAttrs()}},
 						"single": {Type: schema.BlockTypeObject, Body: &schema.BodySchema{Attributes: map[string]*schema.AttributeSchema{"w": anyOf(cty.Bool)}}},
 					}},
 				Address: &schema.BlockAddrSchema{Steps: schema.Address{schema.LabelStep{Index: 0}, schema.LabelStep{Index: 1}}, ScopeId: "sr", BodyAsData: true, InferBody: true, AsReference: true}},
@@ -235,7 +244,7 @@ func c19Schema() *schema.BodySchema {
 				Attributes: map[string]*schema.AttributeSchema{"must": {Constraint: schema.AnyExpression{OfType: cty.String}, IsRequired: true}, "opt": anyOf(cty.String),
 					"tags": {Constraint: schema.AnyExpression{OfType: cty.Map(cty.String)}, IsOptional: true, Address: &schema.AttributeAddrSchema{Steps: schema.Address{schema.StaticStep{Name: "req"}, schema.AttrNameStep{}}, ScopeId: "sq", AsReference: true, AsExprType: true}}},
 				Blocks: map[string]*schema.BlockSchema{"link": {Body: &schema.BodySchema{Attributes: map[string]*schema.AttributeSchema{"peer": {Constraint: schema.AnyExpression{OfType: cty.String}, IsRequired: true}, "via": anyOf(cty.String)}}}}}},
-			"plain":  {Body: &schema.BodySchema{Attributes: map[string]*schema.AttributeSchema{"s": anyOf(cty.String)}}},
+			"plain": {Body: &schema.BodySchema{Attributes: map[string]*schema.AttributeSchema{"s": anyOf(cty.String)}}},
 		},
 	}
 }
@@ -297,7 +306,7 @@ func c19Configs() [][]citem {
 		out = append(out, many)
 		var nested []citem
 		for i := 1; i <= 14; i++ {
-			nested = append(nested, blk("nested", nil, attr("z", cStr(fmt.Sprint(i)))))
+			nested = append(nested, blk("nested", nil, attr(fmt.Sprintf("p%02d", i), cStr(fmt.Sprint(i)))))
 		}
 		nested = append(nested, attr("x", cStr("x")), attr("y", cNum("1")), attr("tags", cObj("k", cStr("v"))))
 		out = append(out, []citem{blk("resource", []string{"aws", "many"}, nested...)})
